@@ -637,6 +637,9 @@ func History(t *rapid.T, o HistOpt) *hist.History {
 			default:
 				h.Units = append(h.Units, hist.Unit{Kind: hist.URotate, NextFile: fname(fileNo), TS: ck.tick(t), FlipChecksum: flip})
 			}
+			if !flip && rapid.IntRange(0, 9).Draw(t, "rot_undef_checksum") == 0 {
+				h.Units[len(h.Units)-1].UndefChecksum = true
+			}
 			if gtidMode != 0 && rapid.Bool().Draw(t, "prev_after_rot") {
 				h.Units = append(h.Units, prevGTIDs())
 			}
